@@ -23,6 +23,8 @@
 #include "sim.h"
 #include "wrap.h"
 #include "subrun.h"
+#include <sys/file.h>
+#include <fcntl.h>
 
 extern "C" void __sanitizer_set_report_path(const char*) __attribute__((weak));
 extern "C" __attribute__((used)) const char* __asan_default_options() {
@@ -133,7 +135,9 @@ static void onTerminate() {
 // runs in the forked child
 static void childMain(const std::string& prop, uint64_t seed,
                       const Json::Value* planIn) {
-  alarm(60);
+  // hang detection must not depend on machine load: the budget is CPU time
+  // (SIGPROF); the wall-clock alarm only catches a child blocked for good
+  armHangTimers(120, 900);
   std::set_terminate(onTerminate);
   g_emitResultAndExit = []() {
     R.in_daemon = false;
@@ -150,10 +154,7 @@ static void childMain(const std::string& prop, uint64_t seed,
   }
   R.prop = prop;
   R.seed = seed;
-  if (__sanitizer_set_report_path) {
-    std::string sp = "/dev/shm/oomd-verif/san-" + prop + "-" + hex16(seed);
-    __sanitizer_set_report_path(sp.c_str());
-  }
+  setSanReportPath("/dev/shm/oomd-verif/san-" + prop + "-" + hex16(seed));
   if (planIn) {
     R.plan = *planIn;
   } else {
@@ -182,9 +183,36 @@ static std::string slurpSan(const std::string& prop, uint64_t seed, pid_t pid) {
   return s;
 }
 
+// Two invocations of the checks (say a quick and a thorough command started
+// at the same time) may reach the same (property, seed) and hence the same sim
+// root, whose path is an input of the run and must not vary. One of a fixed
+// set of lock files serialises them; a process holds at most one at a time.
+struct RootLock {
+  int fd = -1;
+  explicit RootLock(const std::string& key) {
+    uint64_t h = 1469598103934665603ULL;
+    for (unsigned char c : key)
+      h = (h ^ c) * 1099511628211ULL;
+    std::string p =
+        "/dev/shm/oomd-verif/lock-" + std::to_string((unsigned)(h % 509));
+    fd = ::open(p.c_str(), O_RDWR | O_CREAT | O_CLOEXEC, 0666);
+    if (fd >= 0)
+      while (flock(fd, LOCK_EX) != 0 && errno == EINTR) {
+      }
+  }
+  ~RootLock() {
+    if (fd >= 0) {
+      flock(fd, LOCK_UN);
+      ::close(fd);
+    }
+  }
+};
+
 // fork one run; prints exactly one result line to stdout
 static void runOne(const std::string& prop, uint64_t seed,
                    const Json::Value* plan) {
+  RootLock rootLock((plan ? plan->get("root_tag", prop).asString() : prop) +
+                    "-" + hex16(seed));
   int pfd[2];
   if (pipe(pfd) != 0) {
     perror("pipe");
@@ -222,9 +250,11 @@ static void runOne(const std::string& prop, uint64_t seed,
   std::string clause, detail;
   if (WIFSIGNALED(st)) {
     int sig = WTERMSIG(st);
-    if (sig == SIGALRM) {
+    if (sig == SIGALRM || sig == SIGPROF) {
       clause = "crash.hang";
-      detail = "no completion within the wall-clock budget";
+      detail = sig == SIGPROF ? "no completion within the CPU-time budget"
+                              : "blocked: no completion within the wall-clock "
+                                "limit";
     } else {
       clause = "crash.signal-" + std::to_string(sig);
       detail = strsignal(sig);
@@ -249,7 +279,9 @@ static void runOne(const std::string& prop, uint64_t seed,
   fputs((jstr(j) + "\n").c_str(), stdout);
   fflush(stdout);
   // clean the sim root the child could not remove
-  std::string root = "/dev/shm/oomd-verif/" + prop + "-" + hex16(seed);
+  std::string root = "/dev/shm/oomd-verif/" +
+      (plan ? plan->get("root_tag", prop).asString() : prop) + "-" +
+      hex16(seed);
   if (!R.keep_stderr)
     rmrf(root);
 }
